@@ -30,10 +30,12 @@ Record store := MkStore {
   pend : option pending;     (* pendingSnapshot *)
   ckpt_id : N }.             (* checkpointID *)
 
-Record world := MkWorld { w_store : store; w_files : list snapobs }.  (* + the snapshot files in storage *)
+(* + the snapshot files in storage; [w_lose]: fault injection - the Remove calls of the current process do not
+   reach storage (the process will die before its asynchronous cleanup lands), so obsolete files pile up *)
+Record world := MkWorld { w_store : store; w_files : list snapobs; w_lose : bool }.
 
 Definition new_store : store := MkStore [] None 0.
-Definition init : world := MkWorld new_store [].
+Definition init : world := MkWorld new_store [] false.
 
 (* ---- Go maps string -> bool as association lists with unique keys ---- *)
 Definition mk_flags (l : list N) : list (N * bool) := map (fun x => (x, false)) (nodup N.eq_dec l).
@@ -88,9 +90,9 @@ Definition publish (w : world) (p : pending) : world * pubobs :=
   let superseded := existsb (fun c => sn_id s <? sn_id c) (completed st) in
   let cleanup := negb superseded && negb (match completed st with [] => true | _ => false end) in
   let obsolete := ids_of (completed st) in
-  let files2 := if cleanup then without obsolete files1 else files1 in
+  let files2 := if cleanup && negb (w_lose w) then without obsolete files1 else files1 in
   let st' := MkStore (if superseded then completed st else [s]) None (ckpt_id st) in
-  (MkWorld st' files2,
+  (MkWorld st' files2 (w_lose w),
    MkPub s (if cleanup then [obsolete] else []) (if cleanup then [[sn_id s]] else []) (p_sp p)).
 
 (* LoadCheckpoint (repaired code): the snapshot file with the greatest id *)
@@ -114,16 +116,18 @@ Inductive action :=
 | ASavepoint (ops srs : list N)
 | AAckOp (cid op pl : N)
 | AAckSr (cid sr : N) (sts : list N)
-| ARestart.
+| ARestart
+| ALoseRemoves (b : bool).   (* fault injection, not an API call *)
 
 Inductive result :=
 | RCreate (err : bool) (id : N)
 | RSavepoint (err : bool) (id : N) (created : bool)
 | RAck (err : bool) (pub : option pubobs)
-| RRestart (files : list N) (cur : option snapobs).
+| RRestart (files : list N) (cur : option snapobs)
+| RFault.
 
 Definition with_pending (w : world) (p : option pending) : world :=
-  MkWorld (MkStore (completed (w_store w)) p (ckpt_id (w_store w))) (w_files w).
+  MkWorld (MkStore (completed (w_store w)) p (ckpt_id (w_store w))) (w_files w) (w_lose w).
 
 Definition finish_if_complete (w : world) (p : pending) : world * result :=
   if is_complete p then let (w', pub) := publish w p in (w', RAck false (Some pub))
@@ -137,7 +141,7 @@ Definition step (q : quirks) (w : world) (a : action) : world * result :=
       | Some _ => (w, RCreate true 0)
       | None =>
           let id := ckpt_id st + 1 in
-          (MkWorld (MkStore (completed st) (Some (new_pending id ops srs false)) id) (w_files w), RCreate false id)
+          (MkWorld (MkStore (completed st) (Some (new_pending id ops srs false)) id) (w_files w) (w_lose w), RCreate false id)
       end
   | ASavepoint ops srs =>
       match pend st with
@@ -147,7 +151,7 @@ Definition step (q : quirks) (w : world) (a : action) : world * result :=
                 RSavepoint false (p_id p) false)
       | None =>
           let id := ckpt_id st + 1 in
-          (MkWorld (MkStore (completed st) (Some (new_pending id ops srs true)) id) (w_files w), RSavepoint false id true)
+          (MkWorld (MkStore (completed st) (Some (new_pending id ops srs true)) id) (w_files w) (w_lose w), RSavepoint false id true)
       end
   | AAckOp cid op pl =>
       match pend st with
@@ -168,7 +172,8 @@ Definition step (q : quirks) (w : world) (a : action) : world * result :=
       end
   | ARestart =>
       let st' := load_store (w_files w) in
-      (MkWorld st' (w_files w), RRestart (ids_of (w_files w)) (hd_error (completed st')))
+      (MkWorld st' (w_files w) false, RRestart (ids_of (w_files w)) (hd_error (completed st')))
+  | ALoseRemoves b => (MkWorld st (w_files w) b, RFault)
   end.
 
 Fixpoint run (q : quirks) (w : world) (acts : list action) : list result :=
